@@ -619,6 +619,9 @@ pub fn class_value(v: &Value) -> vibesql_types::SqlValue {
         ("str", "nullword") => V::Varchar("NULL".into()),
         ("str", "sqlish") => V::Varchar("'); DROP TABLE TV; --".into()),
         ("str", "spaces") => V::Varchar("  lead and trail  ".into()),
+        ("str", "crlf") => V::Varchar("Subject: x\r\nFrom: y\r\n".into()),
+        ("str", "cr") => V::Varchar("a\rb\r".into()),
+        ("str", "tab") => V::Varchar("a\tb\t".into()),
         ("str", "long600") => V::Varchar("0123456789abcdefghij".repeat(30)),
         ("chr", "uni") => V::Character("h\u{e9}\u{4e16}".into()),
         ("chr", "long280") => V::Character("abcdefg".repeat(40)),
@@ -675,7 +678,7 @@ impl Engine {
     }
 
     /// SELECT through the result cache.
-    fn cached_query(&mut self, sql: &str) -> (Outcome, bool) {
+    fn cached_query(&mut self, sql: &str, fill: i64) -> (Outcome, bool) {
         use vibesql_executor::cache::QuerySignature;
         let r = catch_unwind(AssertUnwindSafe(|| {
             let sig = QuerySignature::from_sql(sql);
@@ -688,7 +691,13 @@ impl Engine {
                         let tables = vibesql_executor::cache::extract_tables_from_select(&sel);
                         let ts = vibesql_catalog::TableSchema::new("result".to_string(), vec![]);
                         let schema = vibesql_executor::schema::CombinedSchema::from_table("result".to_string(), ts);
-                        self.cache.insert(sig, rows.clone(), schema, tables);
+                        self.cache.insert(sig.clone(), rows.clone(), schema.clone(), tables.clone());
+                        if fill >= 2 {
+                            // a second reader that missed at the same time stores its own (equal) result
+                            if let Ok(rows2) = vibesql_executor::SelectExecutor::new(&self.db).execute(&sel) {
+                                self.cache.insert(sig, rows2, schema, tables);
+                            }
+                        }
                         (Outcome { out: "ok", cnt: rows.len() as i64, rows: Some(rows), msg: String::new() }, false)
                     }
                     Err(e) => (Outcome { out: classify(&e), cnt: 0, rows: None, msg: format!("{}", e) }, false),
@@ -859,7 +868,7 @@ impl Engine {
                 exec_sql(&mut self.db, &sql)
             }
             "cq" => {
-                let (o, hit) = self.cached_query(&sql);
+                let (o, hit) = self.cached_query(&sql, a["fill"].as_i64().unwrap_or(1));
                 if hit {
                     sql = format!("{} -- cache hit", sql);
                 }
